@@ -1241,5 +1241,5 @@ func genC06(o *hx.Out, r *hx.Rng, tier string, replay string) error {
 			}
 		}
 	}
-	return nil
+	return c06Mask(o, r.Split(), tier) // c06mask.go: distinct units at the mask's word boundaries (own stream)
 }
